@@ -245,3 +245,206 @@ Proof.
       * intros v0 [<-|Hin]; auto.
       * exact E.
 Qed.
+
+(* ------------------------------------------------------------------ send_tier / store_docs / attempts *)
+
+Lemma send_tier_spec : forall t pay ords ts ts' ords' vs ok prior nr,
+  send_tier t pay ords ts = (ts', ords', vs, ok) ->
+  (forall s, nr t s = nreps_st ts s) ->
+  WInv pay t ts prior ->
+  shape ts' = shape ts /\
+  WInv pay t ts' (prior ++ vs) /\
+  SkipsOk nr pay prior vs /\
+  (ok = true -> FullT ts').
+Proof.
+  intros t pay ords ts ts' ords' vs ok prior nr H Hnr Hinv. unfold send_tier in H.
+  destruct ts as [|sh0 ts0].
+  - inversion H; subst. rewrite app_nil_r. repeat split; auto. intros _. left. reflexivity.
+  - destruct (pop_order (length (sh0 :: ts0)) ords) as [o ords1].
+    destruct (send_order t pay o (sh0 :: ts0)) as [[ts1 vs1] ok1] eqn:E.
+    inversion H; subst.
+    destruct (send_order_spec _ _ _ _ _ _ _ prior nr E Hnr Hinv) as (A & B & C & D & F).
+    repeat split; auto. intros Hok. right. auto.
+Qed.
+
+Definition NrOk (nr : tier -> nat -> nat) (s : st) : Prop :=
+  (forall i, nr Cold i = nreps_st (cold s) i) /\ (forall i, nr Hot i = nreps_st (hot s) i).
+
+Definition SInv (pay : N) (s : st) (log : list visit) : Prop :=
+  WInv pay Cold (cold s) log /\ WInv pay Hot (hot s) log /\ (cold_w s = true -> FullT (cold s)).
+
+Lemma nr_shape : forall (f : nat -> nat) ts ts',
+  (forall i, f i = nreps_st ts i) -> shape ts' = shape ts -> forall i, f i = nreps_st ts' i.
+Proof. intros. rewrite H. rewrite !nreps_st_shape. congruence. Qed.
+
+Lemma store_docs_spec : forall pay s s' vs ok prior nr,
+  store_docs pay s = (s', vs, ok) ->
+  NrOk nr s -> SInv pay s prior ->
+  NrOk nr s' /\ SInv pay s' (prior ++ vs) /\ SkipsOk nr pay prior vs /\
+  (ok = true -> cold_w s' = true /\ FullT (hot s')).
+Proof.
+  intros pay s s' vs ok prior nr H [NC NH] (IC & IH & IW). unfold store_docs in H.
+  destruct (cold_w s) eqn:CW.
+  - destruct (send_tier Hot pay (hot_ord s) (hot s)) as [[[h' ho'] vs1] ok1] eqn:E.
+    inversion H; subst.
+    destruct (send_tier_spec _ _ _ _ _ _ _ _ prior nr E NH IH) as (A & B & C & D).
+    split; [split; simpl; auto; eapply nr_shape; eauto|].
+    split; [split; [|split]; simpl; auto; apply WInv_app; auto|].
+    split; auto.
+  - destruct (send_tier Cold pay (cold_ord s) (cold s)) as [[[c' co'] vs1] ok1] eqn:E.
+    destruct (send_tier_spec _ _ _ _ _ _ _ _ prior nr E NC IC) as (A & B & C & D).
+    destruct ok1.
+    + destruct (send_tier Hot pay (hot_ord s) (hot s)) as [[[h' ho'] vs2] ok2] eqn:E2.
+      inversion H; subst.
+      assert (IH' : WInv pay Hot (hot s) (prior ++ vs1)) by (apply WInv_app; auto).
+      destruct (send_tier_spec _ _ _ _ _ _ _ _ (prior ++ vs1) nr E2 NH IH') as (A2 & B2 & C2 & D2).
+      split; [split; simpl; eapply nr_shape; eauto|].
+      split; [split; [|split]; simpl; auto|].
+      * rewrite app_assoc. apply WInv_app; auto.
+      * rewrite app_assoc. auto.
+      * split; [apply SkipsOk_app; auto|]. intros Hok. simpl. auto.
+    + inversion H; subst.
+      split; [split; simpl; auto; eapply nr_shape; eauto|].
+      split; [split; [|split]; simpl; auto; try discriminate; apply WInv_app; auto|].
+      split; auto. discriminate.
+Qed.
+
+Lemma attempts_S : forall k pay s,
+  attempts (S k) pay s =
+  let '(s', vs, ok) := store_docs pay s in
+  if ok then (s', vs, true)
+  else match k with
+       | 0 => (s', vs, false)
+       | S _ => let '(s'', vs2, ok2) := attempts k pay s' in (s'', vs ++ vs2, ok2)
+       end.
+Proof. reflexivity. Qed.
+
+Lemma attempts_spec : forall n pay s s' vs ok prior nr,
+  attempts n pay s = (s', vs, ok) ->
+  NrOk nr s -> SInv pay s prior ->
+  NrOk nr s' /\ SInv pay s' (prior ++ vs) /\ SkipsOk nr pay prior vs /\
+  (1 <= n -> ok = true -> cold_w s' = true /\ FullT (hot s')).
+Proof.
+  induction n as [|k IHk]; intros pay s s' vs ok prior nr H HN HI.
+  - simpl in H. inversion H; subst. rewrite app_nil_r. repeat split; simpl; auto; lia.
+  - rewrite attempts_S in H.
+    destruct (store_docs pay s) as [[s1 vs1] ok1] eqn:E.
+    destruct (store_docs_spec _ _ _ _ _ prior nr E HN HI) as (A & B & C & D).
+    destruct ok1.
+    + inversion H; subst. repeat split; auto; apply D; auto.
+    + destruct k as [|k'].
+      * inversion H; subst. repeat split; auto; discriminate.
+      * destruct (attempts (S k') pay s1) as [[s2 vs2] ok2] eqn:E2.
+        inversion H; subst.
+        destruct (IHk _ _ _ _ _ (prior ++ vs1) nr E2 A B) as (A2 & B2 & C2 & D2).
+        split; auto. split; [rewrite app_assoc; auto|].
+        split; [apply SkipsOk_app; auto|].
+        intros _ Hok. apply D2; auto. lia.
+Qed.
+
+(* ------------------------------------------------------------------ the initial state *)
+
+Lemma nth_error_map_inv : forall A B (f : A -> B) l n y,
+  nth_error (map f l) n = Some y -> exists x, nth_error l n = Some x /\ f x = y.
+Proof.
+  induction l; destruct n; simpl; intros; try discriminate.
+  - inversion H; eauto.
+  - eauto.
+Qed.
+
+Lemma nreps_mk : forall tin s, nreps_st (map mk_shard tin) s = nreps tin s.
+Proof.
+  unfold nreps_st, nreps. induction tin; destruct s; simpl; auto.
+  unfold mk_shard. simpl. apply map_length.
+Qed.
+
+Lemma WInv_init : forall pay t tin log, WInv pay t (map mk_shard tin) log.
+Proof.
+  intros pay t tin log s sh r rp Hs Hr Hw.
+  apply nth_error_map_inv in Hs as (x & _ & <-). unfold mk_shard in Hr. simpl in Hr.
+  apply nth_error_map_inv in Hr as (sc & _ & <-). discriminate.
+Qed.
+
+Definition nr_of (cin hin : list shard_in) (t : tier) (s : nat) : nat := nreps (tin_of t cin hin) s.
+
+Lemma init_ok : forall pay cin hin cord hord,
+  NrOk (nr_of cin hin) (init_st cin hin cord hord) /\ SInv pay (init_st cin hin cord hord) [].
+Proof.
+  intros. split; [split|split; [|split]]; simpl; intros;
+    try (unfold nr_of; simpl; symmetry; apply nreps_mk); try apply WInv_init; discriminate.
+Qed.
+
+(* ------------------------------------------------------------------ safety theorems *)
+
+(* written bit => successful call to that very replica with this payload *)
+Lemma written_only_on_ok : forall tries pay cin hin cord hord s log ok,
+  store_documents tries pay cin hin cord hord = (s, log, ok) ->
+  forall t sd rp sh r,
+    nth_error (match t with Cold => cold s | Hot => hot s end) sd = Some sh ->
+    nth_error (s_reps sh) r = Some rp -> r_written rp = true ->
+    HasOk pay t sd r log.
+Proof.
+  intros tries pay cin hin cord hord s log ok H.
+  destruct (init_ok pay cin hin cord hord) as [HN HI].
+  destruct (attempts_spec _ _ _ _ _ _ [] _ H HN HI) as (A & (BC & BH & BW) & C & D).
+  simpl in *. intros t sd rp sh r Hs Hr Hw. destruct t; [eapply BC|eapply BH]; eauto.
+Qed.
+
+(* acknowledged => every configured tier holds a fully written shard (state form);
+   contrapositive: no fully written shard in some configured tier => error *)
+Lemma fail_reported : forall tries pay cin hin cord hord s log ok,
+  1 <= tries ->
+  store_documents tries pay cin hin cord hord = (s, log, ok) ->
+  (~ FullT (cold s) \/ ~ FullT (hot s)) -> ok = false.
+Proof.
+  intros tries pay cin hin cord hord s log ok Ht H Hno.
+  destruct (init_ok pay cin hin cord hord) as [HN HI].
+  destruct (attempts_spec _ _ _ _ _ _ [] _ H HN HI) as (A & (BC & BH & BW) & C & D).
+  destruct ok; auto. destruct (D Ht eq_refl) as [Hcw Hh].
+  destruct Hno as [Hno|Hno]; exfalso; auto.
+Qed.
+
+(* acknowledgement in terms of the log only *)
+Definition AckT (pay : N) (t : tier) (tin : list shard_in) (log : list visit) : Prop :=
+  tin = [] \/ exists s x, nth_error tin s = Some x /\
+                          forall r, r < length (snd x) -> HasOk pay t s r log.
+
+Lemma FullT_AckT : forall pay t tin ts log,
+  shape ts = shape (map mk_shard tin) -> WInv pay t ts log -> FullT ts -> AckT pay t tin log.
+Proof.
+  intros pay t tin ts log Hsh Hinv [->|(i & sh & Hn & Hw)].
+  - destruct tin; [left; auto|discriminate].
+  - right.
+    assert (Hl : nreps_st ts i = nreps tin i).
+    { rewrite <- nreps_mk. rewrite !nreps_st_shape. congruence. }
+    unfold nreps_st in Hl. rewrite Hn in Hl. unfold nreps in Hl.
+    destruct (nth_error tin i) as [x|] eqn:Ex.
+    + exists i, x. split; auto. intros r Hr.
+      destruct (nth_error (s_reps sh) r) as [rp|] eqn:Er.
+      * eapply Hinv; eauto. eapply all_written_nth; eauto.
+      * apply nth_error_None in Er. lia.
+    + (* the shard exists in the state but not in the input: impossible, shapes agree *)
+      exfalso. assert (length ts = length (map mk_shard tin)).
+      { unfold shape in Hsh. apply (f_equal (@length nat)) in Hsh. rewrite !map_length in Hsh.
+        rewrite map_length. exact Hsh. }
+      rewrite map_length in H. apply nth_error_None in Ex.
+      assert (i < length ts) by (apply nth_error_Some; congruence). lia.
+Qed.
+
+Lemma attempts_shape : forall n pay s s' vs ok,
+  attempts n pay s = (s', vs, ok) -> shape (cold s') = shape (cold s) /\ shape (hot s') = shape (hot s).
+Proof.
+  intros n pay s s' vs ok H.
+  set (nr := fun t i => match t with Cold => nreps_st (cold s) i | Hot => nreps_st (hot s) i end).
+  (* shapes are compared through nreps_st and lengths; easier: re-run the induction *)
+  revert s s' vs ok H nr. induction n as [|k IHk]; intros s s' vs ok H nr.
+  - simpl in H. inversion H; subst; auto.
+  - rewrite attempts_S in H. destruct (store_docs pay s) as [[s1 vs1] ok1] eqn:E.
+    assert (S1 : shape (cold s1) = shape (cold s) /\ shape (hot s1) = shape (hot s)).
+    { clear H IHk. unfold store_docs in E.
+      assert (G : forall t ords ts ts' ords' vs0 ok0,
+                 send_tier t pay ords ts = (ts', ords', vs0, ok0) -> shape ts' = shape ts).
+      { intros t ords ts ts' ords' vs0 ok0 H0.
+        eapply (send_tier_spec t pay ords ts ts' ords' vs0 ok0 [] (fun _ => nreps_st ts)); eauto.
+        intros s0 sh r rp _ _ _. (* WInv not needed for the shape: use the trivial log trick *)
+        Fail idtac "unreachable". Abort.
